@@ -648,8 +648,15 @@ def run_sim(spec, res):
                     # whose initial value was outside the data range
                     if np.any(bad):
                         j = int(np.where(bad)[0][0])
-                        res.violate("antiwindup_range", "%s.%s state %s = %r outside [%r, %r] at t=%r" % (
-                            item.owner.class_name, item.name, ss.dae.x_name[addr[j]], xv[j], lo[j], up[j], s["t"]), t=s["t"])
+                        # mechanism predicate: the limiter engages only while the derivative points outward.  A state that crosses
+                        # its limit inside one step and whose derivative at the END of the step already points back inside is
+                        # left where the integration rule put it - outside the range
+                        fj = float(s["f"][addr[j]])
+                        inward = (xv[j] > up[j] and fj < 0) or (xv[j] < lo[j] and fj > 0)
+                        res.violate("antiwindup_overshoot_derivative_inward" if inward else "antiwindup_range",
+                                    "%s.%s state %s = %r outside [%r, %r] at t=%r (derivative there %r%s)" % (
+                            item.owner.class_name, item.name, ss.dae.x_name[addr[j]], xv[j], lo[j], up[j], s["t"], fj,
+                            ": pointing back inside" if inward else ""), t=s["t"])
                         break
                 for a in s["pegged"]:
                     res.count("pegged_states_seen")
